@@ -850,6 +850,9 @@ func renderPom(c pomCase, lr *rand.Rand, variant string) string {
 	shape := emptyMgmt(c, variant)
 	wsr := layoutRng(layoutKey(c) + "#wsid")
 	exr := layoutRng(layoutKey(c) + "#dep-extras")
+	// self-closing siblings IN FRONT of the element an update addresses (<optional/> before <version>, <argLine/> before the version
+	// properties): empty elements Read takes nothing from; a writer that tracks depth must count them like any other element (seed C13n)
+	scr := layoutRng(layoutKey(c) + "#selfclosing-before")
 	var sb strings.Builder
 	ind := []string{"  ", "    ", "\t"}[lr.Intn(3)]
 	if lr.Intn(2) == 0 {
@@ -892,6 +895,9 @@ func renderPom(c pomCase, lr *rand.Rand, variant string) string {
 			if d.ws {
 				s = "<dependency><groupId> " + d.g + " </groupId><artifactId>\n" + d.a + "\n</artifactId>"
 			}
+			if scr.Intn(5) == 0 {
+				s += "<optional/>"
+			}
 			s += "<version>" + xmlEsc(d.ver) + "</version>"
 			if d.typ != "" {
 				s += "<type>" + d.typ + "</type>"
@@ -925,6 +931,9 @@ func renderPom(c pomCase, lr *rand.Rand, variant string) string {
 			v = "<![CDATA[" + d.ver + "]]>"
 		}
 		first = false
+		if scr.Intn(5) == 0 {
+			w(depth+1, []string{"<optional/>", "<optional/>", "<systemPath/>"}[scr.Intn(3)])
+		}
 		w(depth+1, "<version>"+v+"</version>")
 		if d.typ != "" {
 			w(depth+1, "<type>"+d.typ+"</type>")
@@ -957,6 +966,9 @@ func renderPom(c pomCase, lr *rand.Rand, variant string) string {
 				w(depth, "<properties combine.children=\"append\">")
 			} else {
 				w(depth, "<properties>")
+			}
+			if scr.Intn(4) == 0 {
+				w(depth+1, "<argLine/>")
 			}
 			for _, p := range props {
 				if p.value == "" && variantOn(c, "empty-prop-selfclosing", 2) {
@@ -1241,7 +1253,7 @@ func viewPom(m guidedremediation.VerifManifest, projVersion string) pomView {
 		ds = append(ds, strings.Join([]string{hs(d.Origin), hs(string(d.GroupID)), hs(string(d.ArtifactID)), hs(normTyp(string(d.Type))), hs(string(d.Classifier)), hs(string(d.Version))}, ":"))
 	}
 	for _, p := range sp.Properties {
-		if p.Name == "unrelated.prop" {
+		if p.Name == "unrelated.prop" || p.Name == "argLine" {
 			continue
 		}
 		ps = append(ps, strings.Join([]string{hs(p.Origin), hs(p.Name), hs(p.Value)}, ":"))
